@@ -223,8 +223,8 @@ var earlyTable = []earlyT{
 	{"x = .5[0]", "accept", "-", "11.2.1"},
 	{"x = .5\n.toFixed(1)", "accept", "-", "7.8.3 / 7.9.1: no ASI before `.`"},
 	// 7.8.5: a RegularExpressionBackslashSequence does not contain a LineTerminator, inside a class either
-	{"x = /[\\\n]/", "reject", "regexp_class_backslash_newline", "7.8.5 RegularExpressionClassChar"},
-	{"x = /[a\\\r]/", "reject", "regexp_class_backslash_newline", "7.8.5"},
+	{"x = /[\\\n]/", "reject", "-", "7.8.5 RegularExpressionClassChar"},
+	{"x = /[a\\\r]/", "reject", "-", "7.8.5"},
 	{"x = /a\\\n/", "reject", "-", "7.8.5"},
 	{"x = /[\\]]/", "accept", "-", "7.8.5"},
 	{"/a/gg", "reject", "-", "7.8.5 / 15.10.4.1: a flag may not repeat; the error is early"},
